@@ -17,6 +17,7 @@ import (
 
 	"verifharness/canon"
 	"verifharness/gen"
+	"verifharness/ref"
 	"verifharness/stats"
 )
 
@@ -373,6 +374,25 @@ func c05Reencode(rt *rapid.T) {
 	mutated := rapid.IntRange(0, 4).Draw(rt, "mutate") != 0
 	if mutated {
 		in = mutateBytes(rt, enc, hdrLen(v))
+	}
+	// structured variant: one plain numeric VALUE field (not a length, count or code) of an uncompressed frame set to an
+	// extreme or sign-flipped value - the input stays decodable, and whatever it decodes to must survive re-encoding
+	if !fc.Frame.Header.Flags.Contains(primitive.HeaderFlagCompressed) && rapid.IntRange(0, 3).Draw(rt, "valueField") == 0 {
+		if refEnc, err := ref.EncodeFrame(fc.Frame); err == nil && bytes.Equal(refEnc.Flat(nil)[:hdrLen(v)], enc[:hdrLen(v)]) {
+			var ints []ref.Annot
+			for _, a := range refEnc.Annots() {
+				if a.Kind == "int" && a.Off >= hdrLen(v) && a.Off+a.Width <= len(enc) {
+					ints = append(ints, a)
+				}
+			}
+			if len(ints) > 0 && len(refEnc.Flat(nil)) == len(enc) {
+				a := ints[rapid.IntRange(0, len(ints)-1).Draw(rt, "whichValue")]
+				in = append([]byte{}, enc...)
+				val := rapid.SampledFrom([]uint64{0xffffffffffffffff, 0x8000000000000000, 0xff00000000000000, 0x7fffffffffffffff, 0}).Draw(rt, "value") >> (8 * uint(8-a.Width))
+				setField(in, a, val)
+				mutated = true
+			}
+		}
 	}
 	verdict := isolated("c05reencode", []string{comp.String()}, in)
 	switch {
